@@ -3,6 +3,7 @@
    decided by comparing rendered HTML on the enumerated documents of the fragment F (see evidence). *)
 From Coq Require Import List NArith Bool Arith.
 Require Import PV.Spec.CMBlock PV.Proofs.CMProofs PV.Proofs.CMFuel PV.Proofs.CMInlineProofs.
+Require Import PV.Base.Str PV.Model.LinkDest PV.Proofs.LinkDestProofs.
 Import ListNotations.
 
 (* whatever the text: nothing that could open or close a tag or an attribute survives the renderer's escaping *)
@@ -27,6 +28,40 @@ Print Assumptions cm_fuel_adequate.
 Theorem cm_emphasis_layer_conservative : forall s, forallb plain_char s = true -> inline_html s = inl (S (length s)) s 0.
 Proof. exact emphasis_layer_conservative. Qed.
 Print Assumptions cm_emphasis_layer_conservative.
+
+(* ---- the link-destination normalisation (links/link_parse_helper.py::__encode_link_destination) ---- *)
+(* the loop of the implementation (cut at the next `%` or `&`, quote the piece in front, handle the special character)
+   never runs out of fuel and computes the character-by-character function `enc`, for every destination *)
+Theorem linkdest_loop_is_enc : forall s, encode_impl s = Some (enc s).
+Proof. exact encode_impl_spec_l. Qed.
+Print Assumptions linkdest_loop_is_enc.
+
+(* whatever the destination (any Unicode scalar values): the normalised text consists of the URL-safe ASCII set, `%` and
+   the characters of `&amp;` only - no space, quote, angle bracket, backslash, backtick or non-ASCII character reaches the
+   attribute *)
+Theorem linkdest_attribute_safe : forall s c, valid s = true -> In c (enc s) ->
+  (c < 128 /\ c <> 32 /\ c <> 34 /\ c <> 60 /\ c <> 62 /\ c <> 92 /\ c <> 96)%N.
+Proof.
+  intros s c V H. apply out_ok_ascii. pose proof (enc_out_ok_l s V) as A. rewrite forallb_forall in A. exact (A c H).
+Qed.
+Print Assumptions linkdest_attribute_safe.
+
+(* a percent escape that is there stays as it is, wherever it stands - in the middle or at the very end of the destination -
+   and what is in front of it and behind it is normalised on its own (`a` must not end inside a `%` or `%h` of its own) *)
+Theorem linkdest_escapes_kept : forall a h1 h2 b, open_tail a = false -> is_hexd h1 = true -> is_hexd h2 = true ->
+  enc (a ++ c_pct :: h1 :: h2 :: b) = enc a ++ c_pct :: h1 :: h2 :: enc b.
+Proof. exact enc_escape_kept_l. Qed.
+Print Assumptions linkdest_escapes_kept.
+
+(* text without `%` never ends inside an escape: the hypothesis of linkdest_escapes_kept is satisfiable, and the
+   specification's own example `foo%20b` + a-umlaut gives foo%20b%C3%A4; a `%` that starts no escape becomes %25 *)
+Example linkdest_examples :
+  open_tail [47; 120]%N = false /\
+  enc [102; 111; 111; 37; 50; 48; 98; 228]%N = [102; 111; 111; 37; 50; 48; 98; 37; 67; 51; 37; 65; 52]%N /\
+  enc [47; 120; 37; 50; 48]%N = [47; 120; 37; 50; 48]%N /\
+  enc [97; 37; 32; 102]%N = [97; 37; 50; 53; 37; 50; 48; 102]%N /\
+  encode_impl [37; 43; 49; 38]%N = Some [37; 50; 53; 43; 49; 38; 97; 109; 112; 59]%N.
+Proof. repeat split; vm_compute; reflexivity. Qed.
 
 (* the model is a total function: the CommonMark examples it must reproduce, as regression facts *)
 Example cm_spec_examples :
